@@ -27,6 +27,7 @@ import multiprocessing
 import os
 import random
 import threading
+import time
 import zlib
 
 from harness import tlc, xl
@@ -498,6 +499,7 @@ def execute(v, vectors, looks, seed, fprob, totals):
     """Run all vectors on the real code in forked workers."""
     if not vectors:
         return
+    t0 = time.time()
     _STATE.update(vectors=vectors, looks=looks, seed=seed, fprob=fprob)
     _STATE.pop('lib', None)
     nproc = max(1, min(16, os.cpu_count() or 1))
@@ -517,6 +519,7 @@ def execute(v, vectors, looks, seed, fprob, totals):
             for desc, case in out.viols:
                 v.violation(desc, case)
     v.traces += len(vectors)
+    totals['exec_s'] = round(totals.get('exec_s', 0) + time.time() - t0, 1)
 
 
 # ------------------------------------------------------------------ TLC ---
@@ -630,10 +633,11 @@ THOROUGH_FPROB = {'*': 0.02, ('vec', 1): 1.0, ('vec', 2): 0.5, ('vec', 3): 0.1,
                   ('tbl', 1): 1.0, ('tbl', 2): 0.5, ('tbl', 3): 0.2,
                   ('tbl', 4): 0.06, ('tbl', 5): 0.03, ('tbl', 6): 0.02}
 
-BIG = [('wide<=4', 'BigModes[1]', 0), ('medium<=6', 'BigModes[2]', 0),
-       ('neutral<=5', 'BigModes[3]', 0), ('narrow<=7', 'BigModes[4]', 0),
-       ('sorted<=8', 'BigModes[5]', 0), ('table w=2', 'BigModes[6]', 1),
-       ('table w=3', 'BigModes[7]', 1), ('table w=4', 'BigModes[8]', 1)]
+BIG = [('wide<=4', 'BigModes[1]', 0), ('five values<=6', 'BigModes[2]', 0),
+       ('neutral<=5', 'BigModes[3]', 0), ('one per type<=8', 'BigModes[4]', 0),
+       ('sorted<=6', 'BigModes[5]', 0), ('sorted<=8', 'BigModes[6]', 0),
+       ('table w=2', 'BigModes[7]', 1), ('table w=3', 'BigModes[8]', 1),
+       ('table w=4', 'BigModes[9]', 1)]
 
 
 def run(tier, seed):
@@ -664,8 +668,8 @@ def run(tier, seed):
             del vectors
         # random part: wide pool, any order, up to length 8 / tables 6 x 4
         for k, (label, expr, num, depth) in enumerate((
-                ('simulate wide<=8', 'SimModes[1]', 12000, 9),
-                ('simulate table 6x4', 'SimModes[2]', 3000, 7))):
+                ('simulate wide<=8', 'SimModes[1]', 4000, 9),
+                ('simulate table 6x4', 'SimModes[2]', 800, 7))):
             vectors, _ = model_run(
                 d, f'MC_LookupS{k}', f'<<{expr}>>', label, v, workers=8,
                 simulate=dict(num=num), depth=depth, seed=seed + 1, timeout=240)
@@ -689,13 +693,15 @@ def run(tier, seed):
         workbooks_compiled=totals['workbooks'],
         unconstrained_match_cases=totals['free'],
         skipped=totals['skipped'],
+        seconds_executing_on_code=totals.get('exec_s'),
         bounds=('quick: all vectors <= 3 (12-value pool) / <= 4 (7-value pools), '
                 'all sorted vectors <= 5, tables <= 4x3; x 24 lookup values x '
                 'match types {-1,0,1} x result indices -1..w+1'
                 if tier == 'quick' else
-                'thorough: all vectors <= 4 (12-value pool) / 6 / 5 / 7, all '
-                'sorted vectors <= 8 (9-value pool), tables <= 6x4 exhaustive '
-                '(5 keys); simulation: 12-value pool to length 8, tables 6x4'),
+                'thorough: all vectors <= 4 (12-value pool) / 6 (5 values) / 5 '
+                '(neutral values) / 8 (one value per type), all sorted vectors '
+                '<= 6 (9 values) / <= 8 (6 values), tables <= 6x4 exhaustive '
+                '(4 keys); simulation: 12-value pool to length 8, tables 6x4'),
         rule='one case = (function, concrete arguments); result must be a '
              'member of the allowed set exported by TLC; every vector through '
              'library calls (column and row orientation), a sample through '
